@@ -69,7 +69,7 @@ HELPERS = ["lower", "upper"]
 NAMES = ["r", "net", "f", "string"] + HELPERS + ["len", "open"]
 GENFLAGS = ["none", "f", "string", "f_op", "net_val"]
 ATTRS = ["strip", "upper", "__class__", "__x", "s", "ipaddress", "fl"]
-CONTEXTS = ["bare", "arg", "operand", "listelt", "genelt", "geniter", "gencond", "kwarg", "not", "boolop", "add_list", "mult", "bitor", "helper_strings", "helper_fields"]
+CONTEXTS = ["bare", "arg", "operand", "listelt", "genelt", "geniter", "gencond", "kwarg", "not", "boolop", "add_list", "mult", "bitor", "helper_strings", "helper_fields", "primed"]
 
 
 def targets():
@@ -104,6 +104,7 @@ def render(t, g, ctx):
         "kwarg": f"field_contains(r, ['c'], ['x'], nocase={X})", "not": f"not {X}", "boolop": f"True and {X}",
         "add_list": f"({X} + ['y']) == 1", "mult": f"({X} * 2) == 1", "bitor": f"({X} | 1) == 1",
         "helper_strings": f"field_equals(r, ['c'], {X})", "helper_fields": f"field_contains(r, {X}, ['zz'])",
+        "primed": f"{X} == 1",
     }[ctx]
     if g == "f_op":
         e = f"1 in ({e} for f in [r.c.strip])"
@@ -111,10 +112,14 @@ def render(t, g, ctx):
         e = f"any({e} for net in [r.c])"       # the variable shadows the ROOT of dotted constructors and is bound to a record value
     elif g != "none":
         e = f"any({e} for {g} in [r.c.strip])"
+    if ctx == "primed":
+        # the genuine, whitelisted calls of the same names were made (and allowed) earlier in the SAME expression
+        e = f"(string('a') == 'b') or (net.ipaddress('1.2.3.4') == 'b') or (lower('A') == 'b') or (upper('a') == 'b') or ({e})"
     return e
 
 
-def run_shape(src, D):
+def run_shape(src, D, entry="match"):
+    """entry: the way the untrusted expression reaches the evaluator -- Selector.match or Selector.explain_selector"""
     from flow.record.selector import Selector
 
     LOG.clear()
@@ -128,7 +133,10 @@ def run_shape(src, D):
     for k in ("_source", "_classification", "_generated", "_version"):
         object.__setattr__(rec, k, None)
     try:
-        Selector(src).match(rec)
+        if entry == "match":
+            Selector(src).match(rec)
+        else:
+            Selector(src).explain_selector(rec)
         refused, exc = False, "none"
     except BaseException as e:  # noqa
         if isinstance(e, (KeyboardInterrupt, SystemExit)):
@@ -164,10 +172,11 @@ def run(tier):
     for name, src in refused_syntax.items():
         if src is None:
             continue
-        o = run_shape(src, D)
-        ctx.case(("syntax", name))
-        if not o["refused"] or o["invoked"] or o["changed"]:
-            ctx.violation({"check": "refused-syntax", "node": name}, {"source": src, "observed": o})
+        for entry in ("match", "explain"):
+            o = run_shape(src, D, entry)
+            ctx.case(("syntax", name, entry))
+            if not o["refused"] or o["invoked"] or o["changed"]:
+                ctx.violation({"check": "refused-syntax", "node": name, "entry": entry}, {"source": src, "observed": o})
     cases, metas = [], []
     ts = targets()
     for t in ts:
@@ -177,6 +186,10 @@ def run(tier):
                 cases.append({"t": t, "g": g, "ctx": c, "obs": run_shape(src, D)})
                 metas.append(src)
                 ctx.case(src)
+                if c in ("bare", "not", "geniter"):       # the second entry point of the interpreted engine
+                    cases.append({"t": t, "g": g, "ctx": c, "obs": run_shape(src, D, "explain")})
+                    metas.append("explain_selector: " + src)
+                    ctx.case("explain:" + src)
     for i in (0, 57, 1203):
         ctx.sample({"source": metas[i], **cases[i]})
     path = os.path.join(common.scratch("c09"), "cases.json")
